@@ -21,9 +21,19 @@ def decOne : Int := 1000000000000000000
 /-- A `LegacyDec` raw value is in range iff `|i| < 2^256 * 10^18` (`IsInValidRange`). -/
 def fitsDec (x : Int) : Bool := x.natAbs < 2 ^ 256 * 1000000000000000000
 
-/-- `applyLooselyTo`: price amount `p`, ratio `rp : rf` (denoms already known equal).
-Returns the fee amount and whether it had to be rounded up. -/
-def applyLooselyTo (p rp rf : Int) : Except AErr (Int × Bool) := do
+/-- `applyLooselyTo` (after the repair of the 256-bit product, see known findings): price amount
+`p`, ratio `rp : rf` (denoms already known equal). Returns the fee amount and whether it had to be
+rounded up. The product is a `big.Int` (no overflow); only a RESULT that needs more than 256 bits
+is refused ("result too large"). -/
+def applyLooselyTo (p rp rf : Int) : Except AErr (Int × Bool) :=
+  if rp = 0 then .error .divzero
+  else
+    let prod := p * rf
+    let rv := if prod.tmod rp ≠ 0 then prod.tdiv rp + 1 else prod.tdiv rp
+    if fits256 rv then .ok (rv, decide (prod.tmod rp ≠ 0)) else .error .invalid
+
+/-- `applyLooselyTo` before the repair: the product was an `sdkmath.Int` (panic above 256 bits). -/
+def applyLooselyToPreFix (p rp rf : Int) : Except AErr (Int × Bool) := do
   if rp = 0 then throw .divzero
   let prod ← mul256 p rf
   let rv := prod.tdiv rp
